@@ -169,6 +169,12 @@ func (fr *Frame) havocAll(why string) {
 	na := x.heapGet(n, "$alloc", "Int")
 	x.em.Assert(sLe(oa, na))
 	fr.cur = n
+	// generator-maintained ghost flags are not program state
+	for name, t := range old.m {
+		if strings.HasPrefix(name, "$called:") {
+			n.m[name] = t
+		}
+	}
 	// locals whose address never escapes (ssa.Alloc with Heap == false) are out of reach of
 	// any callee: their cells keep their values
 	for f := fr; f != nil; f = f.parent {
